@@ -7,7 +7,7 @@
 use crate::world::{msg_label, pid, Cfg, Ev, World};
 use mc_core::bfs::{self, Outcome};
 use mc_core::{cov, json, Ctx, Level, Value};
-use pallas_network2::behavior::responder::ResponderBehavior;
+use pallas_network2::behavior::responder::{ResponderBehavior, ResponderCommand};
 use pallas_network2::behavior::AnyMessage;
 use pallas_network2::{Behavior, InterfaceError, InterfaceEvent, Message as _};
 use std::collections::{BTreeMap, BTreeSet};
@@ -79,12 +79,21 @@ enum REv {
     Recv(u8, usize),
     Sent(u8, usize),
     RecvTwo(u8, usize, usize),
+    /// the application's periodic `Housekeeping` command: it is what applies the bans that
+    /// protocol violations and errors (peer-driven) have earned
+    House,
 }
 
 fn responder_replay(hist: &[REv], raw: &[AnyMessage]) -> Result<usize, (usize, mc_core::panics::PanicInfo)> {
+    responder_replay2(hist, raw).map(|x| x.0)
+}
+
+/// -> (outputs drained, Disconnect commands among them)
+fn responder_replay2(hist: &[REv], raw: &[AnyMessage]) -> Result<(usize, usize), (usize, mc_core::panics::PanicInfo)> {
     let mut b = ResponderBehavior::default();
     let waker = futures::task::noop_waker();
     let mut outputs = 0usize;
+    let mut disconnects = 0usize;
     for (i, ev) in hist.iter().enumerate() {
         let r = mc_core::catch(std::panic::AssertUnwindSafe(|| {
             match ev {
@@ -95,23 +104,32 @@ fn responder_replay(hist: &[REv], raw: &[AnyMessage]) -> Result<usize, (usize, m
                 REv::Recv(p, m) => b.handle_io(InterfaceEvent::Recv(pid(*p), vec![raw[*m].clone()])),
                 REv::Sent(p, m) => b.handle_io(InterfaceEvent::Sent(pid(*p), raw[*m].clone())),
                 REv::RecvTwo(p, m, n) => b.handle_io(InterfaceEvent::Recv(pid(*p), vec![raw[*m].clone(), raw[*n].clone()])),
+                REv::House => b.execute(ResponderCommand::Housekeeping),
             }
             let mut cx = std::task::Context::from_waker(&waker);
-            let mut n = 0;
+            let mut n = (0, 0);
             for _ in 0..10_000 {
                 match futures::StreamExt::poll_next_unpin(&mut b, &mut cx) {
-                    std::task::Poll::Ready(Some(_)) => n += 1,
+                    std::task::Poll::Ready(Some(o)) => {
+                        n.0 += 1;
+                        if matches!(o, pallas_network2::BehaviorOutput::InterfaceCommand(pallas_network2::InterfaceCommand::Disconnect(_))) {
+                            n.1 += 1;
+                        }
+                    }
                     _ => break,
                 }
             }
             n
         }));
         match r {
-            Ok(n) => outputs += n,
+            Ok(n) => {
+                outputs += n.0;
+                disconnects += n.1;
+            }
             Err(p) => return Err((i, p)),
         }
     }
-    Ok(outputs)
+    Ok((outputs, disconnects))
 }
 
 pub fn run(ctx: Ctx) -> ! {
@@ -185,7 +203,7 @@ pub fn run(ctx: Ctx) -> ! {
         }
     }
     // ---------------- responder: complete tree (its connection bookkeeping is private, so no merging)
-    let mut revs: Vec<REv> = vec![REv::Idle];
+    let mut revs: Vec<REv> = vec![REv::Idle, REv::House];
     for p in 0..2u8 {
         revs.extend([REv::Connected(p), REv::Disconnected(p), REv::Error(p)]);
     }
@@ -203,8 +221,21 @@ pub fn run(ctx: Ctx) -> ! {
     let outs_seen = std::sync::atomic::AtomicU64::new(0);
     let rcount = std::sync::atomic::AtomicU64::new(0);
     // prefix: Connected(0) first makes message events meaningful; also the raw tree from scratch
-    let prefixes: Vec<Vec<REv>> = vec![vec![], vec![REv::Connected(0)], vec![REv::Connected(0), REv::Recv(0, 0)]];
+    let mut prefixes: Vec<Vec<REv>> = vec![vec![], vec![REv::Connected(0)], vec![REv::Connected(0), REv::Recv(0, 0)]];
+    // start states behind a ban: peer 0 shakes hands, violates keep-alive (a response nobody
+    // asked for), housekeeping bans it and asks for the disconnect; with and without the
+    // Disconnected notice delivered
+    let i_bad = labels.iter().position(|l| l.starts_with("KeepAlive(ResponseKeepAlive")).unwrap_or_else(|| mc_core::report::machinery_failure("C29: no keep-alive response among the raw messages"));
+    let banned = vec![REv::Connected(0), REv::Recv(0, i_prop), REv::Recv(0, i_bad), REv::House];
+    match responder_replay2(&banned, raw_ref) {
+        Ok((_, d)) if d >= 1 => {}
+        Ok(_) => mc_core::report::machinery_failure("C29: the ban prefix does not make the responder disconnect the violating peer (vacuous start state)"),
+        Err((i, p)) => ctx.violation(p.site(), format!("responder panicked in step {i} of the ban prefix: {} at {}", p.message, p.location), json!({"behaviour": "responder", "history": format!("{banned:?}"), "panicking_step": i})),
+    }
+    prefixes.push(banned.clone());
+    prefixes.push([banned, vec![REv::Disconnected(0)]].concat());
     let n = revs.len();
+    let house_panics: Mutex<BTreeMap<String, String>> = Default::default();
     (0..total_r).into_par_iter().for_each(|code| {
         let mut c = code;
         let mut tail = vec![];
@@ -212,9 +243,18 @@ pub fn run(ctx: Ctx) -> ! {
             tail.push(revs[(c % n as u64) as usize].clone());
             c /= n as u64;
         }
-        for pre in &prefixes {
+        for (pi, pre) in prefixes.iter().enumerate() {
+            // the two start states behind a ban get the complete tree of depth 3 in both tiers
+            let t: &[REv] = if pi >= 3 && rdepth > 3 {
+                if code / (n as u64).pow(3) != 0 {
+                    continue;
+                }
+                &tail[..3]
+            } else {
+                &tail[..]
+            };
             let mut h = pre.clone();
-            h.extend(tail.iter().cloned());
+            h.extend(t.iter().cloned());
             rcount.fetch_add(1, std::sync::atomic::Ordering::Relaxed);
             match responder_replay(&h, raw_ref) {
                 Ok(o) => {
@@ -222,13 +262,19 @@ pub fn run(ctx: Ctx) -> ! {
                 }
                 Err((i, p)) => {
                     let hs: Vec<String> = h.iter().map(|e| match e { REv::Recv(p, m) => format!("Recv({p}, {})", labels[*m]), REv::Sent(p, m) => format!("Sent({p}, {})", labels[*m]), REv::RecvTwo(p, m, k) => format!("Recv({p}, [{}, {}])", labels[*m], labels[*k]), o => format!("{o:?}") }).collect();
-                    ctx.violation(p.site(), format!("responder panicked in step {i} of {hs:?}: {} at {}", p.message, p.location), json!({"behaviour": "responder", "history": hs, "panicking_step": i}));
+                    if matches!(h[i], REv::House) {
+                        // same rule as for the initiator: a panic inside execute(command) is a diagnostic
+                        house_panics.lock().unwrap().entry(p.site()).or_insert(format!("{hs:?}"));
+                    } else {
+                        ctx.violation(p.site(), format!("responder panicked in step {i} of {hs:?}: {} at {}", p.message, p.location), json!({"behaviour": "responder", "history": hs, "panicking_step": i}));
+                    }
                 }
             }
         }
     });
     let rcount = rcount.into_inner();
-    let cp = command_panics.into_inner().unwrap();
+    let mut cp = command_panics.into_inner().unwrap();
+    cp.extend(house_panics.into_inner().unwrap());
     for (site, h) in &cp {
         ctx.note(format!("diagnostic (not peer-driven): panic inside execute(command): {site}; history {h}"));
     }
@@ -239,7 +285,7 @@ pub fn run(ctx: Ctx) -> ! {
         "traces_validated_against_impl" => st_i.transitions as u64 + rcount,
         "samples" => samples,
         "initiator" => json!({"states": st_i.states, "transitions": st_i.transitions, "max_depth": st_i.max_depth, "capped": st_i.capped, "fixpoint": st_i.fixpoint, "per_prefix": per_prefix, "events_in_alphabet": events.len()}),
-        "responder" => json!({"histories": rcount, "tree_depth": rdepth, "prefixes": prefixes.len(), "events_in_alphabet": revs.len(), "outputs_drained": outs_seen.into_inner()}),
+        "responder" => json!({"histories": rcount, "tree_depth": rdepth, "tree_depth_behind_ban_prefixes": 3, "prefixes": prefixes.len(), "events_in_alphabet": revs.len(), "outputs_drained": outs_seen.into_inner()}),
         "raw_messages" => labels,
         "distinct_outcomes" => st_i.states,
         "rule" => "initiator: BFS over histories of the real InitiatorBehavior, every state x every event of an ungated alphabet (2 peers; arbitrary messages of all 8 protocols as Recv and as Sent on peer 0), state = canonical fingerprint incl. private sub-behaviour state (hook H4); responder: the complete tree of histories of the stated depth behind three prefixes, no merging; outputs drained after every step",
